@@ -29,14 +29,14 @@ def main():
   tier = 'thorough' if args.tier.startswith('t') else 'quick'
   seed = int(os.environ.get('VERIF_SEED', '1') or 1)
   prop = args.prop
+  import shims
+  shims.install()
   try:
     mod = importlib.import_module('corr.' + prop.lower())
   except ImportError:
     traceback.print_exc()
     print('no check module for', prop)
     return 2
-  import shims
-  shims.install()
   rep = fw.Report(prop, tier, seed)
   rng = random.Random('%s/%s/%s' % (prop, tier, seed))
 
